@@ -670,7 +670,7 @@ fn conv2_ev(src: &str, mid: &str, dst: &str, v: Value, route: u64) -> Value {
 }
 
 fn gen_c01(rng: &mut Rng, thorough: bool, g: &mut Groups) {
-    let (wide_n, stride16, per_triple) = if thorough { (2500, 1, 24) } else { (160, 173, 3) };
+    let (wide_n, stride16, per_triple) = if thorough { (8000, 1, 60) } else { (400, 61, 4) };
     for s in INTS.iter() {
         for d in INTS.iter() {
             if s == d {
@@ -826,7 +826,7 @@ fn f64_for_f32(rng: &mut Rng) -> f64 {
 }
 
 fn gen_c02(rng: &mut Rng, thorough: bool, g: &mut Groups) {
-    let (wide_n, stride16, f2i_n, ff_n, two_n) = if thorough { (6000, 1, 4000, 30000, 40) } else { (400, 67, 350, 2500, 4) };
+    let (wide_n, stride16, f2i_n, ff_n, two_n) = if thorough { (12000, 1, 25000, 100000, 60) } else { (600, 67, 600, 4000, 4) };
     let floats = ["f32", "f64"];
     // integer -> float
     for s in INTS.iter() {
@@ -963,7 +963,7 @@ fn ty_op_ev(ty: &str, op: &str, a: i128, b: i128) -> Value {
 }
 
 fn gen_c15(rng: &mut Rng, thorough: bool, g: &mut Groups) {
-    let (n_rand, n_new, stride11) = if thorough { (6000, 1500, 1) } else { (250, 80, 89) };
+    let (n_rand, n_new, stride11) = if thorough { (6000, 1500, 1) } else { (600, 150, 41) };
     for t in TYS.iter() {
         let (lo, hi, tot) = (t.min(), t.max(), 1i128 << t.bits);
         g.start(&format!("c15 {} const/new/from", t.name));
